@@ -1054,6 +1054,8 @@ class Engine:
     def slice(self, recv: Any, lo: Any, hi: Any, step: Any, st: State) -> Any:
         T = self.T
         o = st.deref(recv)
+        if isinstance(o, (tuple, list, str)) and all(x is None or isinstance(x, int) for x in (lo, hi, step)):
+            return o[lo:hi:step]  # concrete sequence, concrete bounds: CPython's own slicing
         if step is not None:
             raise Undecided('slice with a step')
         if isinstance(o, SList):
@@ -1301,6 +1303,8 @@ class Engine:
             if any(self.is_sym_int(k) for k in c):
                 return z3.Or(*[self.compare(ast.Eq(), item, k, st) for k in c])
             return item in c
+        if isinstance(c, str) and isinstance(item, str):
+            return item in c  # concrete substring test
         raise Undecided(f'membership test in {c!r}')
 
     def ex_IfExp(self, node, st):
@@ -1475,6 +1479,9 @@ class Engine:
                     yield (OK, st, f(*args))
                 except Exception as e:
                     yield (RAISE, st, ExcVal(type(e)))
+                return
+            if isinstance(f.__self__, dict) and f.__name__ in ('get', 'keys', 'values', 'items') and all(_is_concrete(a) or self.is_sym_int(a) for a in args[:1]) and _is_concrete(args[0] if args else 0) and not kwargs:
+                yield (OK, st, f(*args))  # read-only query of a concrete-keyed dict (values may be symbolic)
                 return
         # 2. contracts and externals (keyed by the real object)
         key = f
